@@ -14,11 +14,12 @@ PROP = {
                    "std::bad_alloc is injected at each single allocation point (all k<=400, strided beyond) and the objects are "
                    "destroyed under ASan. Enumeration is complete per input (up to the stride), sampling over inputs."),
     "level_note": "trusted base: gcc ASan/UBSan/LSan runtimes, the harness' counting operator new; red-zone tools miss non-adjacent/intra-object overflows; paths the zoo never drives are not observed",
-    "technique": "runtime monitoring: ASan+UBSan+LSan hostile workload, guarded invariant hooks, per-call leak/heap/time watchdogs, every-k allocation-failure injection, valgrind memcheck (thorough)",
+    "technique": "runtime monitoring: ASan+UBSan+LSan hostile workload, coverage-guided libFuzzer+ASan+UBSan over the same entry points, guarded invariant hooks, per-call leak/heap/time watchdogs, every-k allocation-failure injection, valgrind memcheck (thorough)",
     "rule": ("case i drives family i mod 19 with zoo inputs (empty/1/2-point/duplicate/collinear/spike/closing-vertex/lattice paths, "
              "extreme coordinates), random parameters from each value class; every case is non-trivial (it executes library code); "
              "oom mode: a case is non-trivial iff the operation allocates at least once; distinct by hash of inputs+parameters"),
-    "assumptions": ["ASan/UBSan/LSan detect the memory errors, UB kinds and leaks they are documented to detect",
+    "assumptions": ["libFuzzer job: clang 14 -fsanitize=fuzzer,address,undefined; inputs are decoded into the same Case/run_op as the hostile mode, bounded by -runs (not time); its executions are counted in evaluations but not in distinct_nontrivial",
+                    "ASan/UBSan/LSan detect the memory errors, UB kinds and leaks they are documented to detect",
                     "iostream operators are excluded from allocation-failure injection (libstdc++ turns bad_alloc into badbit)"],
     "floor": _q(20000, 400000),
     "must_count": _q(["oom_injections_fired", "cases_with_empty_or_short_paths"], ["oom_injections_fired", "cases_with_empty_or_short_paths"]),
@@ -31,6 +32,7 @@ PROP = {
          "env": {"ASAN_OPTIONS": "detect_leaks=0"}},
         {"mon": "mon_c10", "cfg": "asan_z", "cases": _q(800, 20000), "args": ["--mode", "oom"] + _SMALL, "seed_off": 55,
          "env": {"ASAN_OPTIONS": "detect_leaks=0"}},
+        {"mon": "fuzz_c10", "cfg": "fuzz", "cases": _q(160000, 16000000), "seed_off": 77},
         {"mon": "mon_c10", "cfg": "valgrind", "cases": _q(1600, 80000), "args": ["--mode", "hostile", "--time_limit", "900", "--maxexp_bool", "62", "--maxexp_other", "40"],
          "seed_off": 66, "prefix": ["valgrind", "-q", "--error-exitcode=99", "--track-origins=no", "--leak-check=no"]},
     ],
